@@ -321,6 +321,42 @@ def _ctx_rules(ck: Check, prog: Program, b: FuncInfo) -> None:
                        f'validate_method is given `{m_arg}` but `{dotted(pc.args[0]) if pc.args else None}` is what gets called')
 
 
+def bind_result_untouched(prog: Program, b: FuncInfo, cfg: CFG, bind_call: ast.Call) -> List[Tuple[int, str]]:
+    """BaseValidator.bind returns exactly what inspect.Signature.bind produced: every return value is that call (through
+    locals), and the object (or its .arguments mapping) is not written to."""
+    from ..flow import Flow
+    fl = Flow(cfg)
+    out: List[Tuple[int, str]] = []
+    holders: Set[str] = set()
+    for n in cfg.stmt_nodes():
+        a = n.ast
+        if n.kind == 'stmt' and isinstance(a, ast.Return) and a.value is not None:
+            for al in fl.alts(n, a.value):
+                if al.expr is not bind_call:
+                    out.append((n.line, f'bind() can return `{norm(al.expr)[:60]}`, which is not the result of Signature.bind'))
+                holders |= set(al.names)
+    for n in cfg.stmt_nodes():
+        for frag in ([n.ast] if n.kind == 'stmt' and n.ast is not None else []):
+            for x in ast.walk(frag):
+                tgt = None
+                what = ''
+                if isinstance(x, (ast.Subscript, ast.Attribute)) and isinstance(x.ctx, (ast.Store, ast.Del)):
+                    tgt, what = x.value, 'store'
+                elif isinstance(x, ast.Call) and isinstance(x.func, ast.Attribute) and x.func.attr in (
+                        'apply_defaults', 'update', 'setdefault', 'pop', 'clear', 'popitem', '__setitem__', '__delitem__'):
+                    tgt, what = x.func.value, f'.{x.func.attr}()'
+                if tgt is None:
+                    continue
+                root = tgt
+                while isinstance(root, (ast.Attribute, ast.Subscript)):
+                    root = root.value
+                if isinstance(root, ast.Name) and root.id in holders:
+                    out.append((getattr(x, 'lineno', n.line), f'`{norm(x)[:70]}` modifies the bound arguments after binding ({what}): values the client never '
+                                f'sent (e.g. defaults of omitted parameters) are then validated and passed on, so a conforming call can be refused '
+                                f'and the method does not receive exactly the caller\'s arguments'))
+    return out
+
+
 def _bind_strict(ck: Check, prog: Program) -> None:
     bv = prog.cls(BASEVAL)
     b = bv.methods.get('bind')
@@ -375,6 +411,8 @@ def _bind_strict(ck: Check, prog: Program) -> None:
             okk, whyk = shape(dstars[0], {'dict'})
             if not okk:
                 problems.append((c.lineno, f'named arguments must be `params if isinstance(params, dict) else {{}}`, found {whyk}'))
+        # the BoundArguments object is handed back as Signature.bind made it: no defaults filled in, nothing added or removed
+        problems += bind_result_untouched(prog, b, cfg, c)
         # nothing else in bind() may rewrite the params (e.g. dropping null members)
         for st in walk_own(b.node):
             if isinstance(st, (ast.DictComp, ast.ListComp)) and par_param in {y.id for y in ast.walk(st) if isinstance(y, ast.Name)}:
